@@ -208,3 +208,14 @@ def owned_by(analysis: Analysis, qual: str, allowed, _depth: int = 0) -> bool:
         return False
     cs = [c for c in callers_of(analysis, qual) if c != qual]
     return bool(cs) and all(owned_by(analysis, c, allowed, _depth + 1) for c in cs)
+
+
+def inbound_message_key(events, root: str = "__init__:Gateway.logic"):
+    """Key of the inbound message on a path through Gateway.logic: the Message decoded from the root's line
+    argument, wherever the decoding happens (logic itself or a helper it calls)."""
+    for e in events:
+        if e.kind == "new" and e.name == "message:Message":
+            from_line = bool(e.args) and hasattr(e.args[0], "key") and e.args[0].key() == ("root", "line")
+            if e.func == root or from_line:
+                return e.recv.key()
+    return None
